@@ -164,6 +164,76 @@ def _construction(args):
     return res
 
 
+def special_scenarios():
+    """(a) name mode, members are different PARTS of one multi-config file configuring one task class differently;
+    (b) members reach the SAME used config file, with contexts that differ in content but share a (file) name"""
+    import json as _json
+    import os
+    from taskchain import Config, MultiChain
+
+    out = []
+    # ---- (a)
+    desc = {'name': 'mc-parts', 'tasks': {'A': {'name': 'a', 'params': [P('pa')], 'inputs': [], 'data': 'json'}, 'B': {'name': 'b', 'params': [], 'inputs': [bc('A')], 'data': 'json'}},
+            'configs': {'small': {'medium': 'part', 'file': 'experiments.json', 'ext': 'json', 'part': 'small', 'tasks': ['A', 'B'], 'values': {'pa': 1}},
+                        'large': {'medium': 'part', 'file': 'experiments.json', 'ext': 'json', 'part': 'large', 'tasks': ['A', 'B'], 'values': {'pa': 2}}},
+            'root': 'small', 'variants': {'v': []}}
+    for pm in (False, True):
+        root = scratch.fresh('c13s')
+        w = worlds.World(desc, root)
+        try:
+            cfgs = [w.make_config('v', base_dir=root + '/data', root=r) for r in ('small', 'large')]
+            mc = MultiChain(cfgs, parameter_mode=pm)
+            for r, pa in (('small', 1), ('large', 2)):
+                ch = mc[f'experiments#{r}']
+                got = ch['a'].params.pa
+                if got != pa:
+                    out.append(('member chain has another part\'s parameter values', f'parameter_mode={pm}: part {r}: pa={got}, declared {pa}'))
+                term = w.decode(ch['b'].value, 'json')['term']
+                if term['i']['A']['p']['pa'] != pa:
+                    out.append(('member chain returns another part\'s value', f'parameter_mode={pm}: part {r}: {term}'))
+            if mc['experiments#small']['a'] is mc['experiments#large']['a']:
+                out.append(('tasks that differ in a parameter are one shared object', f'parameter_mode={pm}: parts small / large of one file'))
+        except Exception as e:  # noqa
+            out.append(('MultiChain over parts of one file cannot be built / evaluated', f'parameter_mode={pm}: {type(e).__name__}: {e}'))
+        finally:
+            w.dispose()
+            scratch.drop(root)
+    # ---- (b)
+    desc = {'name': 'mc-sharedfile', 'tasks': {'A': {'name': 'a', 'params': [P('x', default=0)], 'inputs': [], 'data': 'json'}, 'T': {'name': 'top', 'params': [], 'inputs': [bc('A')], 'data': 'json'}},
+            'configs': {'base': {'medium': 'json', 'file': 'base.json', 'tasks': ['A'], 'values': {}},
+                        'exp_a': {'medium': 'json', 'file': 'exp_a.json', 'tasks': ['T'], 'values': {}, 'uses': [{'config': 'base'}]},
+                        'exp_b': {'medium': 'json', 'file': 'exp_b.json', 'tasks': ['T'], 'values': {}, 'uses': [{'config': 'base'}]}},
+            'root': 'exp_a', 'variants': {'v': []}}
+    root = scratch.fresh('c13s')
+    w = worlds.World(desc, root)
+    try:
+        w.write_configs(worlds.apply_variant(desc, 'v'), 'v')
+        cdir = w.config_dir('v')
+        ctxs = {}
+        for name, x in (('exp_a', 10), ('exp_b', 20)):
+            os.makedirs(os.path.join(cdir, name), exist_ok=True)
+            ctxs[name] = os.path.join(cdir, name, 'context.json')   # same file NAME, different content
+            with open(ctxs[name], 'w') as f:
+                _json.dump({'x': x}, f)
+        for order in (('exp_a', 'exp_b'), ('exp_b', 'exp_a')):
+            from pathlib import Path
+            cfgs = [Config(Path(root) / 'data', os.path.join(cdir, f'{n}.json'), context=ctxs[n]) for n in order]
+            mc = MultiChain(cfgs)
+            for n, x in (('exp_a', 10), ('exp_b', 20)):
+                got = mc[n]['a'].params.x
+                term = w.decode(mc[n]['top'].value, 'json')['term']
+                if got != x or term['i']['A']['p']['x'] != x:
+                    out.append(('member chain sees another member\'s context values in a used config', f'order {order}: {n}: x={got}, value {term}, own context says {x}'))
+            if mc['exp_a']['a'] is mc['exp_b']['a']:
+                out.append(('tasks that differ in a parameter are one shared object', f'order {order}: used config under two different contexts'))
+    except Exception as e:  # noqa
+        out.append(('MultiChain over a shared used config cannot be built / evaluated', f'{type(e).__name__}: {e}'))
+    finally:
+        w.dispose()
+        scratch.drop(root)
+    return out
+
+
 # ------------------------------------------------------------------------------------------------ histories
 class MSim:
     def __init__(self, name, vids):
@@ -295,6 +365,11 @@ def run(tier, seed):
     ls = ls[k:] + ls[:k]
     for r in pmap(_construction, ls):
         res.merge(r)
+    import tcv
+    tcv.quiet_library()
+    res.add('evaluations', 4)
+    for kind, msg in special_scenarios():
+        res.violations.append(Violation(kind, msg, {'kind': 'special'}))
     res.coverage['config_lists'] = len(ls)
     depth = 3 if tier == 'quick' else 4
     hj = []
@@ -317,6 +392,8 @@ def replay(case):
     import tcv
 
     tcv.quiet_library()
+    if case['kind'] == 'special':
+        return [Violation(k, m, case) for k, m in special_scenarios()]
     if case['kind'] == 'construct':
         return _construction((case['base'], case['vids'])).violations
     return run_mhist(case['base'], case['vids'], [tuple(o) for o in case['hist']])
